@@ -63,6 +63,9 @@ type Gen struct {
 	// SigsBy: signature data of accepted single-signature transactions per signer (for the
 	// signature-transplant perturbation)
 	SigsBy map[types.Address][][]byte
+	// ForceSymbol, when set, is the ticker every ticker-addressed transaction (recreate, owner
+	// change) is generated for
+	ForceSymbol *types.CoinSymbol
 	newCoin  int
 	newCand  int
 	MsigCnt  int
@@ -1040,6 +1043,9 @@ func (g *Gen) route(t *rapid.T) []types.CoinID {
 }
 
 func (g *Gen) newSymbol(t *rapid.T, existing bool) types.CoinSymbol {
+	if existing && g.ForceSymbol != nil {
+		return *g.ForceSymbol
+	}
 	if existing || U(t, "symExisting", 7) == 0 {
 		if len(g.V.CoinIDs) > 0 && U(t, "symUnk", 10) != 0 {
 			return g.V.Coins[pick(t, "symCoin", g.V.CoinIDs)].Symbol
